@@ -937,7 +937,7 @@ def check_C04(ctx):
 
         def evidence(group):
             ev = race_ev(group)
-            if ev is None and any(k == "KCheckThenAct" for _, k, _ in group["members"]) and getattr(ctx, "_conch_failing", None):
+            if ev is None and any(k == "KCheckThenAct" or subj.endswith("roots!") for _, k, subj in group["members"]) and getattr(ctx, "_conch_failing", None):
                 ev = ctx._conch_failing[0]      # an atomicity defect shows as a delivery / linearizability mismatch, not as a race
             if ev is None and group["class"] in ("callback-under-lock", "protocol") and getattr(ctx, "_hang", None):
                 ev = ctx._hang                  # a lock-protocol defect shows as a history that never finishes
